@@ -42,6 +42,11 @@ func verifyFunction(w *World, fn *ssa.Function, con *Contract, props []string) (
 	alloc0 := x.allocInit()
 	x.Sc.Assert(tGe(alloc0, mkInt(1)))
 	st := &State{Guard: tTrue, Heap: map[string]*Term{}, Alloc: alloc0}
+	if dv := w.driverTables(funcPkgPath(fn)); dv != nil {
+		// a function of a generated parser package: the parse tables are read-only arrays whose stated facts
+		// (decided by exhaustive evaluation) are available, as in E-DRV
+		dv.setupTables(x)
+	}
 	var args []Val
 	for _, p := range fn.Params {
 		args = append(args, x.freshVal(st, "p_"+p.Name(), p.Type()))
